@@ -236,7 +236,16 @@ func (scanner *sortingScanner) ScanCursor(tx *bbolt.Tx, cursorProvider ast.SetCu
 	// function instead of putting the comparison on the elements, so we don't need to store a context with each row
 	results := &llrb.Tree{}
 	isChildStore := scanner.store.IsChildStore()
-	maxResults := scanner.targetOffset + scanner.targetLimit
+	// number of rows worth keeping: the skipped ones plus the page. A negative skip
+	// skips nothing and the sum must not wrap around when there is no limit.
+	offset := scanner.targetOffset
+	if offset < 0 {
+		offset = 0
+	}
+	maxResults := int64(math.MaxInt64)
+	if scanner.targetLimit < math.MaxInt64-offset {
+		maxResults = offset + scanner.targetLimit
+	}
 	for cursor.IsValid() {
 		current := cursor.Current()
 		cursor.Next()
